@@ -734,6 +734,10 @@ func (s *c02Sim) observe(ev string) {
 				}
 			case cfg.Wait && q.answered && q.outcome != nil && errors.Is(err, q.outcome):
 				admit(q)
+			case s.shut != nil && strings.Contains(err.Error(), "queue is stopped"):
+				// the property speaks of a running queue: once Shutdown has been requested an offer (also one that was
+				// waiting for space) may be refused because the queue is stopped - never handed over then
+				r.Count("probe.refused_queue_stopped")
 			case len(cfg.WriteFaults) > 0 && strings.Contains(err.Error(), "simdisk: injected I/O error"):
 				// the Offer's storage transaction failed: refused, nothing stored
 				r.Count("probe.refused_storage_write_error")
